@@ -702,6 +702,30 @@ def main(ck: Check):
         else:
             e = gen_expr(rng, rng.randint(0, 5), decimal, names)
         check_expr(e, env, "tolerance" if decimal else "exact")
+    # the same expression under two bindings that hold the SAME values in the same dict order but under swapped names
+    # (a result memo keyed on the values alone would answer the second with the first), evaluated back to back
+    for i in range(40 if ck.tier == "quick" else 400):
+        env = gen_env(rng, False)
+        names2 = [n for n in env if isinstance(env[n], (int, float)) and not isinstance(env[n], bool)]
+        if len(names2) < 2:
+            continue
+        a_, b_ = rng.sample(names2, 2)
+        if env[a_] == env[b_]:
+            env[b_] = env[b_] + 3
+        e = f"{a_} - {b_}" if i % 2 == 0 else f"({a_} * 2 + {b_}) * ({gen_expr(rng, 1, False, [a_, b_])})"
+        swapped = {}
+        for k, v in env.items():        # same insertion order of VALUES, names a_ and b_ exchanged
+            swapped[b_ if k == a_ else a_ if k == b_ else k] = v
+        check_expr(e, env, "exact")
+        check_expr(e, swapped, "exact")
+        check_expr(e, env, "exact")
+    # arguments of ceil / floor a hair's breadth away from an integer (rounding the argument first would move them)
+    for K in (0, 1, 3, 30, -2, 1000):
+        for d in ("0.0000001", "0.0000003", "0.00000049", "1 / 4000000", "3 / 90000000", "0.000001"):
+            for f in ("ceil", "floor"):
+                for sgn in ("+", "-"):
+                    check_expr(f"{f}({K} {sgn} {d})", {}, "exact")
+                    check_expr(f"{f}(x {sgn} {d})", {"x": K}, "exact")
     env_q = {"x": 0, "a.b": 2.5, "_": 7, "ceil": 9, "e": 2, "E": 3, "a": 1, "b": 4, "c.d": 0.5}
     for q in QUIRKS:
         check_expr(q, env_q, "malformed")
